@@ -132,7 +132,7 @@ def run_shard(ctx):
     quick = ctx.tier == 'quick'
 
     # (1) token soup
-    for i in range(ctx.n(100000, 2000000)):
+    for i in range(ctx.n(80000, 2000000)):
         src = soup.gen_soup(rnd)
         kw, ml, thresh = soup.draw_options(rnd)
         if i % 2:
